@@ -1,6 +1,7 @@
 package sims
 
 import (
+	"math/big"
 	"bytes"
 	"crypto/x509"
 	"fmt"
@@ -32,7 +33,7 @@ var OCSPBehaviours = []string{
 	"forged-self", "forged-sibling", "forged-sibling-noeku", "forged-sibling-anyeku", "forged-delegate-badsig", "forged-delegate-certbroken",
 	"sig-zero", "sig-trunc", "sig-empty", "forged-revoked-inv-after",
 	// misdirected
-	"other-serial", "sibling-good-replay",
+	"other-serial", "other-serial-negated", "sibling-good-replay",
 	// stale
 	"expired", "no-nextupdate", "expired-revoked",
 	// stale, in ways that meet the signing time: a next-update that has passed
@@ -321,6 +322,13 @@ func (k *Kit) build(beh string) netsim.Reply {
 		r := base()
 		s := k.single(pki.OCSPGood)
 		s.Serial = pki.NextSerial()
+		r.Singles = []pki.OCSPSingle{s}
+		return body(r)
+	case "other-serial-negated":
+		// an authentic Good answer about serial -N (another serial, same digits)
+		r := base()
+		s := k.single(pki.OCSPGood)
+		s.Serial = new(big.Int).Neg(k.Cert.SerialNumber)
 		r.Singles = []pki.OCSPSingle{s}
 		return body(r)
 	case "expired":
